@@ -98,3 +98,142 @@ PROPS["C14"] = dict(lean=["ChfVerif.Props.C14"], explore=explore_c14,
 PROPS["C15"] = dict(lean=["ChfVerif.Props.C15"], explore=explore_c15,
                     trusted=["Spec/TS32297.lean is my transcription of TS 32.297 clause 6.1 as restated in C15",
                              "os.WriteFile, encoding/binary (modelled)"])
+
+
+# ------------------------------------------------------------------ C07  (account balance server)
+
+def explore_c07(ctx, res, replay_ops=None):
+    n = n_for(ctx, 1500, 30000)
+    r = ctx.stream("abmf", n, ops=replay_ops)
+    cur = {}
+
+    def render():
+        items = sorted("%s/%s=%s" % (k[0], k[1], v) for k, v in cur.items())
+        return ",".join(items) if items else "-"
+
+    def absorb(dump):
+        cur.clear()
+        if dump != "-":
+            for it_ in dump.split(","):
+                k, v = it_.split("=")
+                ue_, rg_ = k.split("/")
+                cur[(ue_, rg_)] = v
+    judge_q, judge_idx = [], []
+    panics = 0
+    for i, (op, im, mo) in enumerate(zip(r.ops, r.impl, r.model)):
+        t = op.split()
+        if t[1] == "reset":
+            cur.clear()
+            continue
+        if t[1] == "set":
+            cur[(t[2], t[3])] = t[4]
+            continue
+        before = render()
+        res.evaluations += 1
+        rsu, usu = int(t[9]), int(t[10])
+        in_domain = rsu < 2 ** 63 and usu < 2 ** 63
+        act, ty = int(t[5]), int(t[3])
+        kind = {0: {1: "reserve", 2: "reserve", 3: "termination"}.get(ty, "debit-other"), 1: "refund",
+                2: "check-balance", 3: "price-enquiry"}.get(act, "other-action")
+        res.dist[kind] += 1
+        it = im.split()
+        res.dist["reply:" + (it[0] if it else "?")] += 1
+        if not in_domain:
+            res.outside_domain["amount>=2^63:" + ("agree" if im == mo else "differ")] += 1
+        else:
+            if im != mo:
+                res.disagreements += 1
+                res.violation("correspondence", "abmf: model and implementation differ",
+                              _history(r.ops, i) + ["# impl:  " + im, "# model: " + mo], found_input=False)
+            if it and it[0] == "ans":
+                res.nontrivial.add(" ".join(t[3:6] + t[8:]))
+            res.sample({"op": op, "impl": im})
+            if it and it[0] == "panic":
+                panics += 1
+                res.violation("crash", "the account-balance server panicked on a request", _history(r.ops, i) + ["# impl: " + im])
+            elif it:
+                judge_q.append("abmfjudge %s %s %s" % (before, " ".join(t[2:]), im))
+                judge_idx.append(i)
+        if it and it[0] in ("ans", "noanswer", "panic"):
+            absorb(it[-1])
+    if judge_q:
+        out = core.driver_run(judge_q)
+        for i, o, q in zip(judge_idx, out, judge_q):
+            res.traces_validated += 1
+            if o != "holds":
+                res.violation("oracle", "C07 step predicate (Abmf.holds) fails on the implementation's trace: " + o,
+                              _history(r.ops, i) + ["# judged: " + q])
+    res.rule = ("histories of CCRs against the real server over Diameter/TLS: 1-3 accounts per history (balances: "
+                "boundary values, negative, malformed text), 4 actions x 4 request types, amounts at 0/1/bal±1/2^31/"
+                "2^32/2^63-1, ~6% unknown subscriber/rating group/id type; non-trivial = answered request, distinct by "
+                "(type, number, action, rating group, amounts)")
+
+
+def _history(ops, i):
+    """the operations of the current history (since the last reset) up to and including i"""
+    j = i
+    while j > 0 and ops[j].split()[1] != "reset":
+        j -= 1
+    return ops[j:i + 1]
+
+
+PROPS["C07"] = dict(lean=["ChfVerif.Props.C07"], explore=explore_c07,
+                    trusted=["go-diameter (transport, AVP codec, panic recovery) and strconv.ParseInt/FormatInt are "
+                             "modelled; MongoDB replaced by an in-memory store behind RestfulAPIGetOne/PutOne"])
+
+
+# ------------------------------------------------------------------ C08  (rating server)
+
+def explore_c08(ctx, res, replay_ops=None):
+    n = n_for(ctx, 1500, 30000)
+    r = ctx.stream("rf", n, ops=replay_ops)
+    stored = {}
+    judge_q, judge_idx = [], []
+    for i, (op, im, mo) in enumerate(zip(r.ops, r.impl, r.model)):
+        t = op.split()
+        if t[1] == "reset":
+            stored = {}
+            continue
+        if t[1] == "set":
+            stored[(t[2], t[3])] = t[4]
+            continue
+        res.evaluations += 1
+        res.dist["sub=%s" % t[6]] += 1
+        it = im.split()
+        res.dist["reply:" + (it[0] if it else "?")] += 1
+        if im != mo:
+            res.disagreements += 1
+            res.violation("correspondence", "rf: model and implementation differ",
+                          _history(r.ops, i) + ["# impl:  " + im, "# model: " + mo], found_input=False)
+        ue = ("696d73692d" + (t[4] if t[4] != "-" else "")) if t[3] == "1" else "-"
+        st = stored.get((ue, t[5]), "?")
+        res.dist["cost=" + ("unknown" if st == "?" else bytes.fromhex(st if st != "-" else "").decode(errors="replace")[:12])] += 1
+        if it and it[0] == "ans":
+            res.nontrivial.add((st, t[6], t[7], t[8]))
+        res.sample({"op": op, "stored_cost_hex": st, "impl": im})
+        if it and it[0] == "panic":
+            res.violation("crash", "the rating server panicked (stopped answering) on a request",
+                          _history(r.ops, i) + ["# impl: " + im])
+        elif it and it[0] in ("ans", "noanswer"):
+            rep = im if it[0] == "noanswer" else " ".join(it[:6])
+            judge_q.append("rfjudge %s %s %s" % (st, " ".join(t[2:]), rep))
+            judge_idx.append(i)
+            # the CHF-side formula as compiled (computed by the harness) must equal the model's chfUnitCost
+        else:
+            res.violation("oracle", "unexpected reply " + im, _history(r.ops, i))
+    if judge_q:
+        out = core.driver_run(judge_q)
+        for i, o, q in zip(judge_idx, out, judge_q):
+            res.traces_validated += 1
+            if o != "holds":
+                res.violation("oracle", "C08 exchange predicate (Rating.holds) fails on the implementation's trace: " + o,
+                              _history(r.ops, i) + ["# judged: " + q])
+    res.rule = ("SURs against the real rating server over Diameter/TLS; stored unit-cost strings: integers incl. 0 "
+                "and > 2^32, decimal fractions, signs, spaces, empty and non-numeric text (thorough: random strings of "
+                "length <= 3 over 0-9.+-a); sub-types reserve/debit/AoC/release/unknown; amounts at boundaries of "
+                "2^16/2^31/2^32; non-trivial = answered, distinct by (cost string, sub-type, consumed, quota)")
+
+
+PROPS["C08"] = dict(lean=["ChfVerif.Props.C08"], explore=explore_c08,
+                    trusted=["go-diameter, strconv.Atoi, math.Pow10 -> uint32 conversion (amd64) are modelled",
+                             "MongoDB replaced by an in-memory store"])
